@@ -102,6 +102,14 @@ func runC08(r *Run) {
 		for i := 1; i < n-1; i++ {
 			b[i] = 'a' + byte((i+int(seed))%26)
 		}
+		if seed%3 == 2 && n > 40 {
+			// a short value followed by insignificant white space up to the same
+			// length (still one valid JSON document of n bytes: the limit counts bytes)
+			b[9] = '"'
+			for i := 10; i < n; i++ {
+				b[i] = ' '
+			}
+		}
 		return b
 	}
 	cur := eff
@@ -457,7 +465,7 @@ func runC08(r *Run) {
 				if len(rs.data)+0 > bombLen {
 					r.Violate("payload-mismatch", s2, "bomb message longer than sent")
 				}
-			} else if k := firstDiff(rs.data, p.data); k >= 0 {
+			} else if k := firstDiff(rs.data, c08Want(api, p.data)); k >= 0 {
 				r.Violate("payload-mismatch", s2, "message %d differs at byte %d (got %d bytes, sent %d)", i, k, len(rs.data), len(p.data))
 				return
 			}
@@ -518,4 +526,13 @@ func clipB(b []byte, n int) []byte {
 		return b[:n]
 	}
 	return b
+}
+
+// c08Want is what the reader is expected to hold for a delivered message: the
+// payload, or for wsjson the document without its trailing white space.
+func c08Want(api int, data []byte) []byte {
+	if api == 2 {
+		return bytes.TrimRight(data, " ")
+	}
+	return data
 }
